@@ -3,7 +3,7 @@
 From Coq Require Import ZArith List Bool Arith Lia.
 From MomoCommon Require Import GenPrelude.
 From C20 Require Import PoolAlloc.
-From C20 Require Gen_PoolAllocator.
+From C20 Require Gen_PoolAllocator Gen_MemPoolOps Gen_MemPool.
 Import ListNotations.
 Local Open Scope nat_scope.
 
@@ -620,6 +620,7 @@ Proof.
   - apply step_allocfail; auto.
   - eexists _, _. split; [reflexivity|]. split; [exact I|]. split; [reflexivity|]. unfold balanced; proj; lia.
   - eexists _, _. split; [reflexivity|]. split; [exact I|]. split; [reflexivity|]. unfold balanced; proj; lia.
+  - eexists _, _. split; [reflexivity|]. split; [exact I|]. split; [reflexivity|]. unfold balanced; proj; lia.
 Qed.
 
 Fixpoint sum_allocs (l : list obs) : nat := match l with [] => 0 | o :: r => o_allocs o + sum_allocs r end.
@@ -716,6 +717,7 @@ Definition op_pools (st : state) (o : op) : list nat :=
   | OpAllocFail h _ _ => [hpool (handles st h)]
   | OpElem _ => []
   | OpQuery _ _ => []
+  | OpSoccFail _ => []
   end.
 
 (* pool q and the blocks obtained through it are untouched *)
@@ -781,6 +783,7 @@ Proof.
          [destruct (from_cache st (hpool (handles st h))); [discriminate|]|]]|];
       inversion E; subst; unfold set_cached, set_pool; proj; try rewrite updn_other by exact Hne;
       (split; [reflexivity|]; split; [lia|]; split; [lia|]; intros; reflexivity).
+  - inversion E; subst. repeat split; auto.
   - inversion E; subst. repeat split; auto.
   - inversion E; subst. repeat split; auto.
 Qed.
@@ -1312,6 +1315,7 @@ Proof.
       * inversion E; subst. exact B.
   - inversion E; subst; exact B.
   - inversion E; subst; exact B.
+  - inversion E; subst; exact B.
 Qed.
 
 Theorem run_cache_bounded : forall ops st st' obs, cache_bounded st -> run st ops = Ok (st', obs) -> cache_bounded st'.
@@ -1365,6 +1369,7 @@ Proof.
   - destruct (release st (hpool (handles st h))) as [[s1 fr]| | |] eqn:Er; try discriminate.
     inversion E; subst. destruct (release_frame _ _ _ _ Er) as [R1 [R2 [R3 [R4 R5]]]]. unfold set_handle; proj.
     split; [exact R1|]. split; [exact R2|]. split; [exact R3|]. intros q Hq. apply R5.
+  - inversion E; subst. repeat split; auto.
   - inversion E; subst. repeat split; auto.
   - inversion E; subst. repeat split; auto.
 Qed.
@@ -1487,6 +1492,128 @@ Qed.
 Theorem elem_query_frame st : (forall h, step st (OpElem h) = Ok (st, mkObs None None (hpool (handles st h)) 0 0 false)) /\
   (forall h1 h2, step st (OpQuery h1 h2) = Ok (st, mkObs None None (hpool (handles st h1)) 0 0 false)).
 Proof. split; reflexivity. Qed.
+
+(* ------------------------------------------------------------------ round 6: the pool side is the generated MemPool *)
+(* same code: the pvUseCache the model calls (Gen_MemPool, field view) and the one inside the generated Allocate /
+   Deallocate (Gen_MemPoolOps) *)
+Lemma pvUseCache_same_code cf bs al cnt cch hd : Gen_MemPoolOps.pvUseCache cf bs al cnt cch hd = Gen_MemPool.pvUseCache cf bs al.
+Proof. reflexivity. Qed.
+
+Lemma flush_loop_runs lp : forall fuel c i hd, (0 <= i <= c)%Z -> (c < 2 ^ 64)%Z -> (Z.to_nat (c - i) < fuel) ->
+  exists hd', Gen_MemPoolOps.pvFlushDeallocate_loop0 lp fuel c i hd = Ok (c, hd').
+Proof.
+  induction fuel as [|fuel IH]; intros c i hd Hi Hc Hf; [lia|].
+  rewrite Gen_MemPoolOps.pvFlushDeallocate_loop0_eq.
+  destruct (Z.ltb_spec i c) as [Hlt|Hge].
+  - cbv zeta. rewrite wrapU_small by lia. apply IH; lia.
+  - assert (i = c) by lia. subst. eexists; reflexivity.
+Qed.
+
+(* pvFlushDeallocate empties the cache (count 0), for every cache content below the fuel of the translation *)
+Lemma gen_flush_spec lp bs al cnt c hd : (c < 300) ->
+  exists hd', Gen_MemPoolOps.pvFlushDeallocate lp bs al cnt (Z.of_nat c) hd = Ok (tt, 0%Z, hd').
+Proof.
+  intros Hc. unfold Gen_MemPoolOps.pvFlushDeallocate. cbv zeta.
+  destruct (flush_loop_runs lp Gen_MemPoolOps.fuel_of_pvFlushDeallocate (Z.of_nat c) 0 hd) as [hd' E].
+  - lia.
+  - assert (300 < 2 ^ 64)%Z by (vm_compute; reflexivity). lia.
+  - unfold Gen_MemPoolOps.fuel_of_pvFlushDeallocate. lia.
+  - rewrite E. eexists; reflexivity.
+Qed.
+
+(* MemPool::Allocate, GENERATED: on (allocCount, mCachedCount) it is exactly the model's pool_allocate_counts *)
+Theorem gen_pool_Allocate_refines lp nb nb1 rb aa bs0 mm P c hd :
+  (Z.of_nat (pcount P) + 1 < 2 ^ 64)%Z -> (Z.of_nat c < 2 ^ 64)%Z ->
+  match Gen_MemPoolOps.Allocate (cached_free_block_count cfg) (block_count cfg) lp nb nb1 rb aa bs0 mm
+          (fst (pparams P)) (snd (pparams P)) (Z.of_nat (pcount P)) (Z.of_nat c) hd with
+  | (_, cnt, cch, _) => cnt = Z.of_nat (fst (pool_allocate_counts cfg P c)) /\ cch = Z.of_nat (snd (pool_allocate_counts cfg P c))
+  end.
+Proof.
+  intros H1 H2. unfold Gen_MemPoolOps.Allocate, pool_allocate_counts. cbv zeta.
+  rewrite pvUseCache_same_code. fold (PoolAlloc.use_cache cfg P).
+  assert ((Z.of_nat c >? 0)%Z = negb (Nat.eqb c 0)) as ->.
+  { destruct c; [reflexivity|]. simpl. reflexivity. }
+  destruct (use_cache P && negb (Nat.eqb c 0)) eqn:E; cbn [fst snd].
+  - apply andb_true_iff in E as [_ E]. destruct c; [discriminate|].
+    rewrite (wrapU_small 64 (Z.of_nat (pcount P) + 1)) by lia. rewrite wrapU_small by lia. split; lia.
+  - rewrite (wrapU_small 64 (Z.of_nat (pcount P) + 1)) by lia. split; lia.
+Qed.
+
+(* MemPool::Deallocate, GENERATED (incl. both assertions and the flush loop): on (allocCount, mCachedCount) it is exactly
+   the model's pool_deallocate_counts; an empty pool trips MOMO_ASSERT(allocCount > 0) in both *)
+Theorem gen_pool_Deallocate_refines lp P c hd block : block <> 0%Z ->
+  (Z.of_nat (pcount P) < 2 ^ 64)%Z -> (c < 300) ->
+  match Gen_MemPoolOps.Deallocate (cached_free_block_count cfg) lp (fst (pparams P)) (snd (pparams P)) (Z.of_nat (pcount P)) (Z.of_nat c) hd block,
+        pool_deallocate_counts cfg P c with
+  | Ok (_, cnt, cch, h'), Some (k, c') => cnt = Z.of_nat k /\ cch = Z.of_nat c' /\ (use_cache P = true -> h' = block)
+  | Stuck, None => True
+  | _, _ => False
+  end.
+Proof.
+  intros Hb H1 Hc. unfold Gen_MemPoolOps.Deallocate, pool_deallocate_counts.
+  destruct (Z.eqb_spec block 0); [contradiction|]. cbn [negb].
+  destruct (pcount P) as [|k] eqn:Ek; [reflexivity|].
+  assert ((Z.of_nat (S k) >? 0)%Z = true) as -> by (apply Z.gtb_lt; lia).
+  rewrite pvUseCache_same_code. fold (PoolAlloc.use_cache cfg P).
+  assert (300 < 2 ^ 64)%Z by (vm_compute; reflexivity).
+  destruct (use_cache P) eqn:Eu.
+  - assert ((Z.of_nat c >=? cached_free_block_count cfg)%Z = Z.leb (cached_free_block_count cfg) (Z.of_nat c)) as ->.
+    { rewrite Z.geb_leb. reflexivity. }
+    destruct (Z.leb (cached_free_block_count cfg) (Z.of_nat c)).
+    + destruct (gen_flush_spec lp (fst (pparams P)) (snd (pparams P)) (Z.of_nat (S k)) c hd Hc) as [hd' E]. rewrite E.
+      cbv zeta. rewrite !wrapU_small by lia. repeat split; lia.
+    + cbv zeta. rewrite !wrapU_small by lia. repeat split; lia.
+  - cbv zeta. rewrite wrapU_small by lia. repeat split; try lia; try discriminate.
+Qed.
+
+(* ... and the model's step applies exactly these functions to the pool it routes to *)
+Theorem step_alloc_pool_counts st h n grow st' ob : step st (OpAlloc h n grow) = Ok (st', ob) ->
+  let p := hpool (handles st h) in let P := pools st p in
+  match alloc_decision cfg (hvt (handles st h)) P n with
+  | APool false => (pcount (pools st' p), cached st' p) = pool_allocate_counts cfg P (cached st p)
+  | APool true => (pcount (pools st' p), cached st' p) =
+                  pool_allocate_counts cfg (mkPool (get_params (hvt (handles st h))) 0 (prefs P) 0 (palive P)) 0
+  | ARaw _ => pools st' = pools st /\ cached st' = cached st
+  end.
+Proof.
+  intros E. cbv zeta. unfold PoolAlloc.step in E. cbv zeta in E. unfold alloc_decision, pool_allocate_counts.
+  destruct (n =? 1)%Z.
+  - destruct (params_eqb (get_params (hvt (handles st h))) (pparams (pools st (hpool (handles st h))))) eqn:Eq; cbn [negb andb] in *.
+    + inversion E; subst; unfold set_cached, push_block, set_pool; proj. rewrite !updn_same; proj.
+      unfold PoolAlloc.from_cache. reflexivity.
+    + destruct (Nat.eqb (pcount (pools st (hpool (handles st h)))) 0).
+      * inversion E; subst; unfold set_cached, push_block, set_pool; proj. rewrite !updn_same; proj.
+        rewrite andb_false_r. reflexivity.
+      * inversion E; subst; unfold push_block; proj. split; reflexivity.
+  - inversion E; subst; unfold push_block; proj. split; reflexivity.
+Qed.
+
+Theorem step_dealloc_pool_counts st h b n shrink : 
+  let p := hpool (handles st h) in let P := pools st p in
+  match dealloc_decision cfg (hvt (handles st h)) P n with
+  | DPool => match step st (OpDealloc h b n shrink), pool_deallocate_counts cfg P (cached st p) with
+             | Ok (st', _), Some (k, c') => pcount (pools st' p) = k /\ cached st' p = c'
+             | Stuck, None => True
+             | _, _ => False
+             end
+  | DRaw _ => forall st' ob, step st (OpDealloc h b n shrink) = Ok (st', ob) -> pools st' = pools st /\ cached st' = cached st
+  end.
+Proof.
+  cbv zeta. unfold PoolAlloc.step, dealloc_decision, pool_deallocate_counts. cbv zeta.
+  destruct ((n =? 1)%Z && params_eqb (get_params (hvt (handles st h))) (pparams (pools st (hpool (handles st h))))).
+  - destruct (pcount (pools st (hpool (handles st h)))) eqn:Ec; [exact I|].
+    unfold set_cached, set_block, set_pool; proj. rewrite !updn_same; proj. split; reflexivity.
+  - intros st' ob E. inversion E; subst; unfold set_block; proj. split; reflexivity.
+Qed.
+
+(* ------------------------------------------------------------------ round 6: exceptions can leave the allocating functions *)
+(* /repo fix f8cb4ff: select_on_container_copy_construction allocates a pool, so it must not be noexcept; the flags are
+   GENERATED from the declarations.  When allocate_shared throws inside it, the exception reaches the container's copy
+   constructor and no allocator state has changed. *)
+Theorem socc_failure_propagates st h :
+  Gen_PoolAllocator.select_on_container_copy_construction_noexcept = false /\ Gen_PoolAllocator.allocate_noexcept = false /\
+  step st (OpSoccFail h) = Ok (st, mkObs None None (hpool (handles st h)) 0 0 false).
+Proof. repeat split; reflexivity. Qed.
 
 End Proofs.
 
